@@ -112,10 +112,18 @@ class IfaceA(Protocol):
         ...
 
 
-@runtime_checkable
-class IfaceB(Protocol):
-    def only_b(self):
-        ...
+def _local_interface():
+    """an interface declared in a local scope, as applications often do:
+    its __qualname__ ('_local_interface.<locals>.IfaceB') differs from its
+    __name__"""
+    @runtime_checkable
+    class IfaceB(Protocol):
+        def only_b(self):
+            ...
+    return IfaceB
+
+
+IfaceB = _local_interface()
 
 
 class OnlyA:
